@@ -62,6 +62,10 @@ SPEC = {
     "ite": lambda c, a, b: a if c else b,
     "implies": lambda a, b: (not a) or b,
     "is_none": lambda a: a is None,
+    "strip": lambda a: a.strip(),
+    "rstrip": lambda a: a.rstrip(),
+    "lstrip": lambda a: a.lstrip(),
+    "substr": lambda a, lo, hi=None: a[lo:hi],
 }
 
 
@@ -224,3 +228,41 @@ def _show(env):
             return "<some object>"
         return repr(v)[:80]
     return {k: one(v) for k, v in env.items()}
+
+
+def replay_function(contract, model):
+    """
+    Counter-model of a WHOLE-FUNCTION contract whose parameters (and ghosts) are str / int / bool: the real def -- also a
+    nested one, compiled stand-alone from the current source with the real module's globals -- is called by CPython on
+    the model's arguments and the `ensures` are evaluated on the result.  Anything else -> None.
+    """
+    try:
+        simple = {"str", "int", "bool"}
+        if any(k not in simple for k in contract.params.values()):
+            return None
+        fnode = contract.fnode()
+        if fnode is None:
+            return None
+        mod = importlib.import_module(contract.src.split(":")[0])
+        env = {n: model_value(model, n, k) for n, k in contract.params.items()}
+        for r in contract.requires:
+            if not spec_eval(r, env, env):
+                return {"requires_hold": False, "env": _show(env), "failed_requires": r}
+        fcopy = copy.deepcopy(fnode)
+        fcopy.decorator_list = []
+        code = compile(ast.fix_missing_locations(ast.Module(body=[fcopy], type_ignores=[])), extract.module_path(contract.src.split(":")[0]), "exec")
+        g = dict(vars(mod))
+        for n in contract.closure:
+            g[n] = Something()
+        exec(code, g)
+        a = fnode.args
+        pnames = [x.arg for x in a.posonlyargs + a.args + a.kwonlyargs]
+        try:
+            result = g[fnode.name](**{n: env[n] for n in pnames if n in env})
+        except Exception as ex:
+            return {"requires_hold": True, "env": _show(env), "raised": "%s: %s" % (type(ex).__name__, ex), "failed_ensures": []}
+        post = dict(env, result=result)
+        failed = [e for e in contract.ensures if not spec_eval(e, post, env)]
+        return {"requires_hold": True, "env": _show(env), "result": result if isinstance(result, (str, int, bool, type(None))) else repr(result)[:200], "failed_ensures": failed}
+    except Exception as ex:
+        return {"replay_error": "%s: %s" % (type(ex).__name__, ex)}
